@@ -8,27 +8,27 @@ HERE = os.path.dirname(os.path.abspath(__file__))
 # id -> (technique, level text, level note, DESIGN section)
 T = {
     "C01": ("explicit-state exploration of conversion chains (depth<=3) from every tz transition + breadth-first search over mixed operation sequences (conversions, elapsed and calendar arithmetic) with de-duplicated implementation states, vs TZif reference model",
-            "Every zone's every offset transition is probed at -1us/0/+1us/+-1s/+-gap; conversion operations (in_timezone, in_tz, astimezone, from_timestamp, fromtimestamp, instance of 5 tzinfo kinds) are applied as sequences up to depth 3 and every reached state is compared with an independent TZif/POSIX-footer reference; states reached by different routes for one (instant, zone) must be observationally equal.",
+            "Every zone's every offset transition is probed at -1us/0/+1us/+-1s/+-gap; conversion operations (in_timezone, in_tz, astimezone, from_timestamp, fromtimestamp, instance of 5 tzinfo kinds, and receivers that carry a foreign tzinfo) are applied as sequences up to depth 3 and every reached state is compared with an independent TZif/POSIX-footer reference; states reached by different routes for one (instant, zone) must be observationally equal.",
             "Trusts: reference TZif reader (validated against stdlib zoneinfo on every run), the two tz databases on this image. Bound: neighbourhoods of transitions + 37-year grid, witness target zones in quick, all ordered pairs in thorough."),
     "C02": ("exhaustive enumeration of skipped/repeated/ordinary wall times of every zone x fold x raise flag x entry point, vs solve() reference",
             "All gaps and overlaps of all zones are enumerated from the tz data; each wall time is built through every wall-clock entry point with both folds and both raise flags and compared with a reference that enumerates the UTC instants rendering to that wall time.",
             "Trusts the TZif reference reader. Bound: 5 wall times per transition (edges, middle) + ordinary walls."),
-    "C03": ("exhaustive enumeration: transition-neighbourhood states x carry-critical amount alphabet x {add, subtract, +td, -td} and inverse (depth 2) + breadth-first search over depth-3 operation sequences (receivers produced by earlier conversions/arithmetic)",
+    "C03": ("exhaustive enumeration: transition-neighbourhood states x carry-critical amount alphabet x {add, subtract, +td, -td, td+dt, Duration+dt} and inverse (depth 2); calendar-edge receivers (29 February of every kind of year) under both helper back ends + breadth-first search over depth-3 operation sequences (receivers produced by earlier conversions/arithmetic)",
             "From every probe state around every transition of every zone, fixed-length amounts from a carry-critical alphabet are added and then subtracted; instants are compared as integer microseconds with the reference rendering.",
             "Trusts the TZif reference reader. Bound: amount alphabet (|total| <= 1e9 s), neighbourhood probes."),
-    "C04": ("exhaustive enumeration: calendar-edge dates x (years, months, weeks, days, time) alphabet x {add, subtract, +Duration, -Duration, +(-d)} vs integer reference with clamp + C02 normalisation; DST-target starts with both raw fold flags; breadth-first search over depth-3 operation sequences",
+    "C04": ("exhaustive enumeration: calendar-edge dates x (years, months, weeks, days, time) alphabet x {add, subtract, +Duration, -Duration, +(-d), Duration+dt, Durations derived by arithmetic} vs integer reference with clamp + C02 normalisation; DST-target starts with both raw fold flags; breadth-first search over depth-3 operation sequences",
             "Month-end/leap/year-boundary starts x signed amount alphabet; results compared with an integer calendar model; the three spellings of subtraction must agree.",
             "Bound: amount alphabet and start-date set listed in the evidence; zones = witness set."),
     "C05": ("exhaustive enumeration of ordered endpoint pairs (all zones' transition neighbourhoods, both folds, tz-identity variants) vs integer instant difference",
             "All ordered pairs among probe states around transitions (same tzinfo object / equal name / different zones), through -, diff, interval, abs, absolute=True, in_*; compared with the integer microsecond difference of the instants.",
             "Bound: pairs within a zone's transition probes + cross-zone witness pairs + far-apart straddlers."),
-    "C06": ("exhaustive enumeration of (start,end) date pairs over leap-cycle windows x time-of-day borrow patterns; decomposition checker + Rust/Python differential",
+    "C06": ("exhaustive enumeration of (start,end) date pairs over leap-cycle windows x time-of-day borrow patterns (incl. differently named zones sharing an offset, native operands); decomposition checker + Rust/Python differential",
             "Every date pair in the windows (span <= 800 days) x borrow pattern is decomposed by both precise_diff back ends and by Interval; ranges, rebuild, negation, in_months and back-end agreement are checked.",
             "Bound: year windows listed in the evidence; zones: UTC, fixed, naive, Date, witness zones without net offset change."),
     "C07": ("exhaustive enumeration: every date of the year set rendered in 6 ISO forms x time/fraction/offset products, parsed by both back ends (constructive oracle)",
             "Strings are rendered from values by an independent renderer; parse() under both back ends must return the value rendered; impossible dates must raise ValueError; isoformat/str/to_*_string round trips.",
             "Bound: quick = 30 full years, thorough = every date 1583..9999; all 2879 minute offsets."),
-    "C08": ("exhaustive enumeration: DateTime grid x every token / token pair / format grammar x 27 locales; from_format inversion (depth 2)",
+    "C08": ("exhaustive enumeration: DateTime grid x every token / token pair / format grammar x 27 locales; from_format inversion (depth 2) incl. every hour of the day and the X/x/YY/E/d/DDDD/Q tokens; named helpers under other default locales",
             "Each documented token is rendered for every grid value and compared with an integer/strftime/locale-data renderer; formats generated by a small grammar are inverted with from_format.",
             "Bound: value grid and grammar listed in the evidence; whole-minute offsets."),
     "C09": ("exhaustive enumeration of constructor argument tuples from a boundary alphabet (<=4/5 non-zero of 9 components) vs integer model",
@@ -37,7 +37,7 @@ T = {
     "C10": ("exhaustive enumeration: operand pairs (40 values x Duration|timedelta) x all operators x numbers, vs native timedelta",
             "Every operator on every operand pair is executed on Durations and on native timedeltas; value and result type are compared.",
             "Bound: operand alphabet listed in the evidence."),
-    "C11": ("exhaustive enumeration: states x accessors and all ordered pairs x comparison/hash/subtraction vs native twins",
+    "C11": ("exhaustive enumeration: states x accessors, alternative constructors, replace() argument forms, formatting mixin and all ordered pairs x comparison/hash/subtraction vs native twins",
             "Each pendulum value and its native twin answer every stdlib accessor; all ordered pairs go through the six comparisons, hash and subtraction.",
             "Bound: state set from transition neighbourhoods of witness zones, calendar samples for Date, grid for Time."),
     "C12": ("explicit-state exploration: every (instant, zone) state reached by 3 routes x 9 units x start_of/end_of applied twice, 7 week configurations",
@@ -55,10 +55,10 @@ T = {
     "C16": ("exhaustive enumeration: every date of a 28-year cycle x 7 weekdays x n ranges x units; anomalous-midnight zones; vs calref date arithmetic",
             "Every month/quarter/year shape x weekday x n is navigated on Date and DateTime and compared with integer date arithmetic; termination enforced by a horizon.",
             "Bound: 28-year cycle + century years; zones = witness set + all skipped/repeated midnights."),
-    "C17": ("exhaustive enumeration of all strings of length <=4 (thorough <=6) over a 26-symbol alphabet + all single (thorough: double) edits of valid templates x options, both back ends",
+    "C17": ("exhaustive enumeration of all strings of length <=4 (thorough <=6) over a 26-symbol alphabet + all single (thorough: double) edits of valid templates x options, both back ends; range-boundary date strings of every year type with the calendar as oracle",
             "Every string of the bounded language is parsed under both back ends; the outcome must be a supported type or ValueError, accepted values must agree across back ends and not stem from wrapped numbers.",
             "Bound: string length / edit distance / template set listed in the evidence."),
-    "C18": ("exhaustive enumeration: 27 locales x units x counts 0..1000 x {now,other} x {past,future} x absolute; locale tokens; call-order histories (depth<=3) on a cold locale cache",
+    "C18": ("exhaustive enumeration: 27 locales x units x counts 0..1000 x {now,other} x {past,future} x absolute; locale tokens; call-order histories (depth<=3) on a cold locale cache; per-locale direction-marker consistency; Interval.in_words over all instant pairs",
             "Every locale/unit/count/flag combination is formatted; totality, placeholder substitution, direction marker (from the locale's own data) and magnitude are checked; all orderings of <=3 calls must return what each returns alone.",
             "Bound: counts 0..1000, 40-point instant set."),
     "C19": ("exhaustive enumeration: interval seeds x 8 units x steps 1..12 x {forward, inverted, absolute}; sequence compared with independently computed start.add(k*n)",
@@ -109,7 +109,7 @@ def main():
         }],
         "checks": checks,
         "not_applicable": na,
-        "notes": "Every check: exit 0 = held (KNOWN-FINDING lines for listed findings), exit 1 + VIOLATION line, exit 2 = infrastructure failure. PENDMC_REPO=<dir> points the checks at a scratch copy.",
+        "notes": "Every check additionally repeats a VERIF_SEED-rotated sixth (thorough: third) of its first configuration (a) in a process with a non-default first day of the week and default locale and (b) with the pure-Python helper back end when its own plan does not select it; both are reported in the evidence coverage. Every check: exit 0 = held (KNOWN-FINDING lines for listed findings), exit 1 + VIOLATION line, exit 2 = infrastructure failure. PENDMC_REPO=<dir> points the checks at a scratch copy.",
     }
     with open(os.path.join(HERE, "MANIFEST.json"), "w") as f:
         json.dump(man, f, indent=1)
